@@ -68,8 +68,11 @@ def run(ctx):
     with vcheck.Lock("translator"):
         vcheck.sh([vcheck.TRANSLATOR_BIN, "-repo", vcheck.REPO, "-out", vcheck.GENERATED])
         ctx.obligations("NGF.Props.C14")
+        # permutation invariance of the pipeline fragment model (Model/Pipeline.gen); imported by Props/C14.lean
+        ctx.obligations("NGF.Props.C14Pipeline")
     if ctx.tier == "thorough":
         ctx.leanchecker("NGF.Props.C14")
+        ctx.leanchecker("NGF.Props.C14Pipeline")
 
     quick = ctx.tier == "quick"
     jobs = []  # (label, args)
@@ -78,13 +81,18 @@ def run(ctx):
         for fn in sorted(os.listdir(cdir)):
             if fn.endswith(".json"):
                 jobs.append(("corpus:" + fn, ["-seed", ctx.seed, "-reps", 16 if quick else 48, "-replay", os.path.join(cdir, fn)]))
+    pipe_jobs = []  # stream `pipe`: in-fragment states (harness/c02 generator) in several arrival orders
     if quick:
         jobs.append(("gen", ["-seed", ctx.seed, "-n", 200, "-reps", 8]))
+        pipe_jobs.append(("pipe", ["-pipeline", "-seed", ctx.seed, "-n", 120, "-orders", 5]))
     else:
         for k in range(12):
             jobs.append((f"gen{k}", ["-seed", ctx.seed * 1000 + k, "-n", 420, "-reps", 32]))
         for k in range(4):
             jobs.append((f"perm{k}", ["-seed", ctx.seed * 1000 + 500 + k, "-n", 60, "-permall"]))
+        for k in range(6):
+            pipe_jobs.append((f"pipe{k}", ["-pipeline", "-seed", ctx.seed * 1000 + 700 + k, "-n", 250, "-orders", 8]))
+    jobs += pipe_jobs
 
     results = {}
     with concurrent.futures.ThreadPoolExecutor(max_workers=4 if quick else 14) as ex:
@@ -94,8 +102,9 @@ def run(ctx):
     if not getattr(ctx, "harness_ok", False):
         ctx.broken("harness does not build against the current tree", detail="\n".join(ctx.build_errors))
 
+    pipe_labels = {j[0] for j in pipe_jobs}
     lines, origin = [], []
-    for label, args in [(j[0], j[1]) for j in jobs]:
+    for label, args in [(j[0], j[1]) for j in jobs if j[0] not in pipe_labels]:
         for l in results[label][1]:
             if l.startswith("{"):
                 lines.append(l)
@@ -191,6 +200,90 @@ def run(ctx):
         if s in ("gw", "tls", "pol", "btp") and c >= 3 and len(samples) < 10:
             samples.append(f"{s} sc{d['sc']} competitors={c} verdict={v[:60]} model={m[:100]}")
 
+    # ---- stream `pipe`: one in-fragment state, several arrival orders, real pipeline vs Model/Pipeline.gen
+    pipe = collections.Counter()
+    pipe_outside = collections.Counter()
+    pipe_tags = collections.Counter()
+    pipe_lines, pipe_origin = [], []
+    for label, args in pipe_jobs:
+        for l in results[label][1]:
+            if l.startswith("{"):
+                pipe_lines.append(l)
+                pipe_origin.append((label, args))
+    pipe_answers = ctx.driver("pipeline", pipe_lines) if pipe_lines else []
+    for l, (label, args), a in zip(pipe_lines, pipe_origin, pipe_answers):
+        try:
+            d = json.loads(l)
+            a = json.loads(a)
+        except Exception:
+            ctx.broken("pipe stream: undecodable harness line or driver answer", detail=l[:300])
+            continue
+        s = d.get("site")
+        if s == "tags":
+            for k, n in d["tags"].items():
+                pipe_tags[k] += n
+            continue
+        if s == "panic":
+            panics[d["where"]] += 1
+            continue
+        if s != "pipe":
+            continue
+        rep = {"harness_args": [str(x) for x in args] + ["-only", str(d["sc"])], "scenario": d["sc"],
+               "arrivals": [o["arrival"] for o in d["orders"]]}
+        if "error" in a:
+            ctx.broken(f"pipeline mode could not decode a harness line: {a}", replay=rep)
+            continue
+        pipe["scenarios"] += 1
+        pipe["real_builds"] += len(d["orders"])
+        evaluations += len(d["orders"])
+        pipe["probes"] += a.get("probes", 0) * len(d["orders"])
+        if a.get("abstracted"):
+            pipe["real_conf_abstracted"] += 1
+        j = a.get("judge", "")
+        if j != "ok":
+            pipe["judge_fail"] += 1
+            sig = j.split(" ")[1] if " " in j else "pipeline-arrival-order"
+            ctx.finding(f"C14:{sig}", f"C14 one cluster state, two arrival orders, different result: {j[5:900]}",
+                        dict(rep, detail=j, line=l[:400000]))
+        else:
+            pipe["judge_ok"] += 1
+        if not a.get("inFragment"):
+            pipe["outside_fragment"] += 1
+            pipe_outside[a.get("why", "")[:70]] += 1
+            continue
+        pipe["in_fragment"] += 1
+        pipe["served"] += bool(a.get("served"))
+        if a.get("gwsOfClass", 0) >= 2:
+            pipe["with_competing_gateways"] += 1
+        h = hashlib.sha1(json.dumps(d["orders"][0]["flat"], sort_keys=True).encode()).hexdigest()
+        distinct.add(h)
+        if a.get("gwsOfClass", 0) >= 2 or a.get("routes", 0) >= 2:
+            nontrivial.add(h)
+        if a.get("tie"):
+            pipe["tie_differs"] += 1
+            diffs += 1
+            if pipe["tie_differs"] <= 3:
+                ctx.broken("pipeline model and real generator disagree for an arrival order "
+                           "(abstracted http.conf ≠ Pipeline.gen of the scenario in that order): " + a["tie"][:700],
+                           replay=dict(rep, diff=a["tie"], line=l[:400000]))
+        else:
+            pipe["tie_equal_orders"] += a.get("orders", 0)
+            validated += a.get("orders", 0)
+        if a.get("hyps"):
+            pipe["theorem_hypotheses_hold"] += 1
+            if a.get("thm"):
+                pipe["theorem_falsified"] += 1
+                ctx.broken("a C14Pipeline theorem is false on a generated input: " + a["thm"][:700], kind="obligation",
+                           replay=dict(rep, detail=a["thm"], line=l[:400000]))
+        if a.get("rawDiffers", 0) > 0:
+            pipe["scenarios_where_reordering_changes_raw_model_output"] += 1
+        if len(samples) < 12 and a.get("gwsOfClass", 0) >= 2 and a.get("rawDiffers", 0) > 0:
+            samples.append(f"pipe sc{d['sc']} {d['desc']} servers={a.get('servers')} locs={a.get('locs')} orders={a.get('orders')} "
+                           f"raw-model-output-differs-in={a.get('rawDiffers')} arrival[1]={d['orders'][1]['arrival'][:160]}")
+    if pipe_jobs and pipe["in_fragment"] == 0 and getattr(ctx, "harness_ok", False):
+        ctx.broken("pipe stream is vacuous: no generated scenario is inside the fragment of Model/Pipeline",
+                   detail=str(dict(pipe_outside)))
+
     if sum(panics.values()) > max(3, sites["det"] // 20):
         ctx.broken(f"too many scenarios panicked (not this property's subject, but nothing was judged): {dict(panics)}")
     if sites["det"] == 0:
@@ -202,7 +295,9 @@ def run(ctx):
         "rule": "evaluations = real builds (scenarios x repetitions with permuted arrival/batching, Go map order random per range); "
                 "a case = one site observation (gateways / match rules of one path / listeners / TLS hostnames / BTPs / "
                 "policies / determinism of one scenario); non-trivial = distinct case with at least two competitors at the site "
-                "(for `det`: at least two builds)",
+                "(for `det`: at least two builds); stream `pipe`: a case = one in-fragment cluster state (Model/Pipeline) built in "
+                "several arrival orders, non-trivial = distinct state with at least two Gateways of the class or two HTTPRoutes; "
+                "its per-order translation validations (abstractConf(real) = Pipeline.gen up to order) count as validated traces",
         "samples": samples,
         "traces_validated_against_impl": validated,
         "correspondence_diffs": diffs,
@@ -212,6 +307,9 @@ def run(ctx):
         "verdict_histogram": dict(sorted(verdict_hist.items())),
         "competitors_per_site_histogram": dict(sorted(comp_hist.items())),
         "generator_tags": dict(sorted(fam_tags.items())),
+        "pipeline_arrival_orders": dict(sorted(pipe.items())),
+        "pipeline_arrival_orders_generator_tags": dict(sorted(pipe_tags.items())),
+        "pipeline_arrival_orders_outside_fragment_reasons": dict(pipe_outside),
         "panics_in_code_under_test": dict(panics),
         "jobs": [j[0] for j in jobs],
     }, assumptions=[
@@ -223,4 +321,7 @@ def run(ctx):
         "harness/c14 normalisation (servers by (port,name), locations by (modifier,path), upstream servers / map params / includes "
         "as sets, match keys by content, config version dropped, condition messages dropped)",
         "Lean re-implementation of hostname intersection (findAcceptedHostnames) used by the TLS judge",
+        "stream pipe: PipelineTie.abstractConf (real http.conf + matches.json -> Conf), PipelineTie.confDiff (canonical text of a "
+        "Conf: ports, servers, locations sorted), harness/c02 Flatten of the objects in arrival order, Model/NginxEval restricted "
+        "to Conf (nginxEvalConf) as the meaning of a configuration",
     ])
